@@ -2,6 +2,7 @@ package props
 
 import (
 	"fmt"
+	"go/token"
 	"go/types"
 	"sort"
 	"strings"
@@ -73,11 +74,37 @@ func runC14(c *core.Ctx) {
 		node := cg.Nodes[g.fn]
 		n := 0
 		if node != nil {
-			for _, e := range node.In {
-				caller := e.Caller.Func
-				if caller == nil || caller.Pkg == nil || !load.InModule(caller.Pkg.Pkg) {
-					continue
+			// the call sites that count are those of the entry points: an unexported plain helper between an entry point and
+			// the splitter (splitEncoded(codec, data, ref)) is looked through, its callers stand for it
+			type site struct {
+				caller *ssa.Function
+				pos    token.Pos
+			}
+			var sites []site
+			var up func(fn *ssa.Function, depth int)
+			seenUp := map[*ssa.Function]bool{}
+			up = func(fn *ssa.Function, depth int) {
+				nd := cg.Nodes[fn]
+				if nd == nil || seenUp[fn] {
+					return
 				}
+				seenUp[fn] = true
+				for _, e := range nd.In {
+					caller := e.Caller.Func
+					if caller == nil || caller.Pkg == nil || !load.InModule(caller.Pkg.Pkg) {
+						continue
+					}
+					if depth < 3 && caller.Signature.Recv() == nil && caller.Parent() == nil && caller.Object() != nil && !caller.Object().Exported() && len(cg.Nodes[caller].In) > 0 {
+						up(caller, depth+1)
+						continue
+					}
+					sites = append(sites, site{caller, e.Site.Pos()})
+				}
+			}
+			up(g.fn, 0)
+			for _, st := range sites {
+				caller := st.caller
+				e := struct{ Site interface{ Pos() token.Pos } }{Site: posOnly(st.pos)}
 				codecs := codecsAt(c, caller)
 				n++
 				pos := c.Prog.Pos(e.Site.Pos())
@@ -217,3 +244,7 @@ func codecsAt(c *core.Ctx, fn *ssa.Function) []string {
 }
 
 var _ = fmt.Sprintf
+
+type posOnly token.Pos
+
+func (p posOnly) Pos() token.Pos { return token.Pos(p) }
